@@ -116,13 +116,12 @@ func (d *driver) addMigCase(stream string, in []byte, to string, fresh []string,
 	if err != nil {
 		return
 	}
-	outS := "None"
+	var outTree any
 	if outErr == nil {
-		outTree, err := decodeGeneric(out)
+		outTree, err = decodeGeneric(out)
 		if err != nil {
 			return
 		}
-		outS = "(Some " + coqJSON(outTree) + ")"
 	}
 	readsS := "None"
 	if reads != nil {
@@ -132,8 +131,12 @@ func (d *driver) addMigCase(stream string, in []byte, to string, fresh []string,
 		d.mig = newCasesFile(fmt.Sprintf("cases_C16_mig_%03d.v", d.nMig), "mcase")
 		d.nMig++
 	}
+	outS := "None"
+	if outErr == nil {
+		outS = "(Some " + d.mig.tree(coqJSON(outTree)) + ")"
+	}
 	body := fmt.Sprintf("{| mc_in := %s;\n  mc_to := %s; mc_fresh := %s; mc_rename := %s;\n  mc_out := %s;\n  mc_valid_src := %s; mc_reads := %s |}",
-		coqJSON(inTree), coqOptVersion(to), hx.List(fresh, coqStr), renameTable(inTree), outS, hx.Bool(validSrc), readsS)
+		d.mig.tree(coqJSON(inTree)), coqOptVersion(to), hx.List(fresh, coqStr), renameTable(inTree), outS, hx.Bool(validSrc), readsS)
 	idx := d.mig.add(body)
 	input := map[string]any{"stream": stream, "to": to}
 	for k, v := range meta {
@@ -383,7 +386,7 @@ func main() {
 
 	// valid 13.x definitions
 	rv := r.Fork("valid13")
-	nValid := tierCount(o, 160, 6000)
+	nValid := tierCount(o, 110, 6000)
 	for i := 0; i < nValid; i++ {
 		ri := rv.Fork(fmt.Sprint(i))
 		gd := genDef(ri, ri.Intn(6))
@@ -400,7 +403,7 @@ func main() {
 
 	// legacy definitions
 	rl := r.Fork("legacy")
-	for i := 0; i < tierCount(o, 80, 3000); i++ {
+	for i := 0; i < tierCount(o, 50, 3000); i++ {
 		ri := rl.Fork(fmt.Sprint(i))
 		d.runLegacy(genLegacy(ri, pools), int64(o.Seed)*7919+int64(i), true)
 	}
